@@ -176,6 +176,7 @@ class HeapExec(NumExec):
         s.loop_ord = -1
         s.fnname = fnname
         s.fresh_n = 0
+        s.loop_index = {}
         s.entry = {}                       # loop ordinal -> path at loop entry
         s.writes = set()                   # heap field keys written (frame check)
         s.call_log = []
@@ -829,6 +830,8 @@ class HeapExec(NumExec):
         for nm in names:
             if nm in p.env:
                 p.env[nm] = s.havoc_value(p.env[nm], f"{nm}@{tag}")
+                if isinstance(p.env[nm], Num):
+                    p.pc.append(xr.wf(p.env[nm].x))
         for k in fields:
             p.heap[k] = z3.FreshConst(p.heap[k].sort(), f"{k}@{tag}")
 
@@ -862,8 +865,10 @@ class HeapExec(NumExec):
         raise Unsupported(f"havoc of {type(v).__name__}")
 
     def for_loop(s, p, n):
-        s.loop_ord += 1
-        lo = s.loop_ord
+        lo = s.loop_index.get((n.lineno, n.col_offset))
+        if lo is None:
+            s.loop_ord += 1
+            lo = s.loop_ord
         spec = s.loops.get(lo)
         if spec is None:
             raise Unsupported(f"loop {lo} at line {n.lineno} has no invariant in the sidecar")
@@ -923,6 +928,9 @@ class HeapExec(NumExec):
     # ------------------------------------------------------------------ running a function
     def run_fn(s, fn, p):
         s.fn_line = fn.lineno
+        # loop ordinal = syntactic position of the loop in the function (the same loop may be reached on several paths)
+        loops = sorted([(n.lineno, n.col_offset) for n in ast.walk(fn) if isinstance(n, (ast.For, ast.While))])
+        s.loop_index = {pos: i for i, pos in enumerate(loops)}
         outs = []
         for q, sig in s.block([p], fn.body):
             if sig is None:
